@@ -216,6 +216,9 @@ def _call(case, meas, conds, folds, noise, container, dtype, what, relib=False, 
     od = {'cond': gen.as_desc(conds, container)}
     if folds is not None:
         od['fold'] = gen.as_desc(folds, container)
+        if len(conds) % 2 == 1:
+            # the same labels under a second name, bound to the very same object (run = fold)
+            od['run'] = od['fold']
     ds = Dataset(U.np_data(meas, dtype), obs_descriptors=od, descriptors={'subj': 's1'})
     if relib and folds is not None:
         # the same rows taken apart by fold and put together again by the library (rows grouped by
